@@ -33,16 +33,6 @@ Theorem C18_refuted_floatenum_assign_float :
   exists L pre v, LemmasFe.consistent L (Fe.run L pre) /\ ~ LemmasFe.consistent L (Fe.run L (pre ++ [Fe.SetF v])).
 Proof. exists L_desc, [Fe.SetI 0%Z], 1%Z. split; vm_compute; [reflexivity|discriminate]. Qed.
 
-(* a_limits together with a_min: checkLimits returns after the a_limits test, a value below a_min is accepted *)
-Definition L_shadow : Li.layout :=
-  {| Li.l_lo := (-10)%Z; Li.l_hi := 10%Z; Li.l_min := true; Li.l_max := false; Li.l_lim := true |}.
-Theorem C18_refuted_limits_tuple_shadows_min_max :
-  exists L ops v s' r, Li.step L (Li.run L ops) (Li.WriteA v) = (s', Model.ROk r) /\ ~ LemmasLi.within_all L (Li.run L ops) v.
-Proof.
-  exists L_shadow, [Li.WriteMin 0%Z], (-5)%Z. eexists. eexists. split; [vm_compute; reflexivity|].
-  intros (_ & _ & H & _). specialize (H eq_refl). vm_compute in H. apply H. reflexivity.
-Qed.
-
 (* generated write_<struct>: the second member write raises after the first member was written *)
 Definition L_two : St.layout :=
   {| St.sl_n := 2; St.sl_rw := false; St.sl_sr := false; St.sl_sw := false; St.sl_mr := [true; true]; St.sl_mw := [true; true];
